@@ -4,7 +4,6 @@ package deque
 //verif:case C15 quick VerifDequeIter 0..7 -1..6
 //verif:case C15 quick VerifDequeIter 0..5 16
 //verif:case C15 thorough VerifDequeIter 0..7 7..10
-//verif:case C15 thorough VerifDequeIter 0..5 17
 
 // VerifDequeIter: symbolic valid deque of capacity c, Iterate, j x Next, one mid-iteration
 // operation (op), then Next until the end or a panic. Snapshot-or-panic:
